@@ -186,7 +186,15 @@ def genotype(
             sample = sam.Sample(gene, profile, sam_path, debug=debug)
         else:
             if cn_solution:
-                profile = Profile("user_provided", cn_solution=cn_solution, **params)
+                # (the structure is the user's; the profile's own parameters still apply)
+                options = {}
+                if profile_name and kind != "dump":
+                    options = Profile.load_options(profile_name)
+                profile = Profile(
+                    "user_provided",
+                    cn_solution=cn_solution,
+                    **dict(options, **params),
+                )
             elif kind != "dump":
                 if not profile_name:
                     raise AldyException("Profile not provided")
